@@ -82,6 +82,64 @@ theorem endoMat_one (G2 G3 G4 : Mat R) : endoMat4 G2 G3 G4 (1, 0, 0, 0) = matOne
   cases G2; cases G3; cases G4
   simp [endoMat4, matAdd, matSmul, matOne]
 
+/-! ## left ideals of M₂(R) killing a vector with a unit coordinate are principal, generated by any element with a unit entry -/
+section Ann
+variable {R : Type} [CommRing R]
+
+/-- a row orthogonal to v (v with a unit coordinate) is a multiple of (v₂, −v₁) -/
+theorem ann_row (v : V R) (hv : IsUnit v.1 ∨ IsUnit v.2) (r1 r2 : R) (h : r1 * v.1 + r2 * v.2 = 0) :
+    ∃ s, r1 = s * v.2 ∧ r2 = -(s * v.1) := by
+  rcases hv with h1 | h2
+  · obtain ⟨w, hw⟩ := h1.exists_right_inv
+    refine ⟨-(r2 * w), ?_, ?_⟩
+    · linear_combination w * h - r1 * hw
+    · linear_combination (-r2) * hw
+  · obtain ⟨w, hw⟩ := h2.exists_right_inv
+    refine ⟨r1 * w, ?_, ?_⟩
+    · linear_combination (-r1) * hw
+    · linear_combination w * h - r2 * hw
+
+/-- if G kills v and has a unit entry, every G' killing v is a left multiple of G: Ann(v) = M₂(R)·G -/
+theorem left_multiple_of_generator (G G' : Mat R) (v : V R) (hv : IsUnit v.1 ∨ IsUnit v.2)
+    (hG : mulVec G v = (0, 0)) (hG' : mulVec G' v = (0, 0)) (hu : (IsUnit G.a ∨ IsUnit G.b) ∨ (IsUnit G.c ∨ IsUnit G.d)) :
+    ∃ X : Mat R, G' = matMul X G := by
+  obtain ⟨s0, ha, hb⟩ := ann_row v hv G.a G.b (congrArg Prod.fst hG)
+  obtain ⟨s1, hc, hd⟩ := ann_row v hv G.c G.d (congrArg Prod.snd hG)
+  obtain ⟨t0, ha', hb'⟩ := ann_row v hv G'.a G'.b (congrArg Prod.fst hG')
+  obtain ⟨t1, hc', hd'⟩ := ann_row v hv G'.c G'.d (congrArg Prod.snd hG')
+  rcases hu with hu | hu
+  · have hs : IsUnit s0 := by
+      rcases hu with h | h
+      · rw [ha] at h; exact isUnit_of_mul_isUnit_left h
+      · rw [hb] at h; exact isUnit_of_mul_isUnit_left (IsUnit.neg_iff _ |>.mp h)
+    obtain ⟨w, hw⟩ := hs.exists_right_inv
+    refine ⟨⟨t0 * w, 0, t1 * w, 0⟩, ?_⟩
+    cases G with | mk a b c d =>
+    cases G' with | mk a' b' c' d' =>
+    simp only at ha hb hc hd ha' hb' hc' hd'
+    simp only [matMul, Mat.mk.injEq]
+    refine ⟨?_, ?_, ?_, ?_⟩
+    · rw [ha', ha]; linear_combination (-(t0 * v.2)) * hw
+    · rw [hb', hb]; linear_combination (t0 * v.1) * hw
+    · rw [hc', ha]; linear_combination (-(t1 * v.2)) * hw
+    · rw [hd', hb]; linear_combination (t1 * v.1) * hw
+  · have hs : IsUnit s1 := by
+      rcases hu with h | h
+      · rw [hc] at h; exact isUnit_of_mul_isUnit_left h
+      · rw [hd] at h; exact isUnit_of_mul_isUnit_left (IsUnit.neg_iff _ |>.mp h)
+    obtain ⟨w, hw⟩ := hs.exists_right_inv
+    refine ⟨⟨0, t0 * w, 0, t1 * w⟩, ?_⟩
+    cases G with | mk a b c d =>
+    cases G' with | mk a' b' c' d' =>
+    simp only at ha hb hc hd ha' hb' hc' hd'
+    simp only [matMul, Mat.mk.injEq]
+    refine ⟨?_, ?_, ?_, ?_⟩
+    · rw [ha', hc]; linear_combination (-(t0 * v.2)) * hw
+    · rw [hb', hd]; linear_combination (t0 * v.1) * hw
+    · rw [hc', hc]; linear_combination (-(t1 * v.2)) * hw
+    · rw [hd', hd]; linear_combination (t1 * v.1) * hw
+end Ann
+
 end SqiProofs.QuatAction
 
 /-! ## bridge: integer matrices as generated (lists of rows) ↦ matrices over ZMod n -/
